@@ -1732,6 +1732,9 @@ def lt(left: Any, right: Any) -> bool:
 
   # Most symbolic nodes are leaf, which are primitive types, therefore
   # we detect such types to make `lt` to run faster.
+  if left is None or isinstance(left, utils.MissingValue):
+    # `right` is of the same kind, thus they are equal.
+    return False
   if isinstance(left, (int, float, bool, str)):
     return left < right
   elif isinstance(left, list):
